@@ -36,8 +36,9 @@ def showTable (T : Table) : String :=
   if sorted.isEmpty then "-" else
   ",".intercalate (sorted.map fun a => s!"{encStr a.name}:{if a.global then "g" else "n"}:{encChars a.value}")
 
-def observe (toks : Toks) (text : List Char) (T : Table) : String :=
-  if !validToks toks then "syntax-error" else s!"ok {encChars text} T={showTable T}"
+def observe (toks : Toks) (hd : Pending) (text : List Char) (T : Table) : String :=
+  -- a here-document whose body was never read (no newline after it) is `MissingHereDocContent`
+  if !validToks toks || !hd.isEmpty then "syntax-error" else s!"ok {encChars text} T={showTable T}"
 
 /-- step budget of the line machine (the table may change, so `fuelFor` of the initial table is no bound) -/
 def lineFuel (T : Table) (cs : List Char) : Nat := fuelFor T cs + 20000
@@ -49,7 +50,7 @@ def runLine (line : String) : String :=
     let (l, done) := lrun (lineFuel T cs) { T := T, m := init cs }
     if !done then "FUEL\t-" else
     let hl := hlrun (lineFuel T cs) { T := T, h := { rest := cs } }
-    observe l.m.toks.reverse l.m.text l.finalTable ++ "\t=" ++
-      observe hl.h.toks.reverse (hl.h.out.reverse ++ hl.h.rest) hl.finalTable
+    observe l.m.toks.reverse l.m.hd l.m.text l.finalTable ++ "\t=" ++
+      observe hl.h.toks.reverse hl.h.hd (hl.h.out.reverse ++ hl.h.rest) hl.finalTable
 
 def main : IO Unit := YashModel.Proto.mainLoop runLine
